@@ -14,17 +14,23 @@ package main
 //   depth  live function activations. Largest seen: 587 at s~360 (~3 frames per DFS level).
 //          Budget 20k + 200*s  (>= x100).
 //   ticks  all loop iterations and function entries of the call: catches terminating-but-exponential work.
-//          Largest seen: 13.5M at s=69 (network simplex positioner, ~s^3..s^4). Budget 1G + 1M*s^2  (s=69: 5.8G, x430).
+//          Largest seen over 8000 specs of the workload distribution: 3.0M for s<20, 35M for s>=20 (network simplex
+//          positioner at s~35; the big graphs of the workload are structured and cheaper). Largest seen: 128k for s<10, 3.0M for 10<=s<20, 35M for s>=20. Budget 50M / 400M / 4G (>= x100).
 //   bytes  growth of the live heap during the call: 2 GiB (largest seen: < 64 MiB).
 const byteBudget = 2 << 30
 
-const budgetRule = "with s = |E|+|V|: loop iterations per function activation <= 2M + 2000*s^2; call depth <= 20k + 200*s; total ticks <= 1G + 1M*s^2; live-heap growth <= 2 GiB; each >= 100x the largest value observed among returning runs of that size in calibration"
+const budgetRule = "with s = |E|+|V|: loop iterations per function activation <= 2M + 2000*s^2; call depth <= 20k + 200*s; total ticks <= 50M (s<10) / 400M (s<20) / 4G; live-heap growth <= 2 GiB; each >= 100x the largest value observed among returning runs of that size in calibration"
 
 func sizeOf(nEdges, nNodes int) uint64 { return uint64(nEdges + nNodes) }
 
 func tickBudget(nEdges, nNodes int) uint64 {
-	s := sizeOf(nEdges, nNodes)
-	return 1_000_000_000 + 1_000_000*s*s
+	switch s := sizeOf(nEdges, nNodes); {
+	case s < 10:
+		return 50_000_000
+	case s < 20:
+		return 400_000_000
+	}
+	return 4_000_000_000
 }
 func depthBudget(nEdges, nNodes int) int { return 20_000 + 200*int(sizeOf(nEdges, nNodes)) }
 func frameBudget(nEdges, nNodes int) uint64 {
